@@ -16,4 +16,4 @@ CONSTANTS
   StdMax = 2
   UseStdClasses = {"Pair", "Triple", "Option", "List"}
   StdLayouts = {"plain", "tight", "trail", "wrap-last", "fromnl-all"}
-INVARIANTS ReadsBack NewlineFixGood GlueFixGoodIffSeparated GlueOkNeedsSemicolon ApplySane Emit
+INVARIANTS ReadsBack NewlineFixGood NewlineFixKeepsComments GlueFixGoodIffSeparated GlueOkNeedsSemicolon ApplySane Emit
